@@ -133,6 +133,21 @@ fn enumerate_lcs<F: ark_ff::PrimeField>(seed: u64, max_len: usize) -> Vec<LcSpec
     for len in 1..=max_len {
         rec_build(&kinds, len, &mut Vec::new(), &mut out);
     }
+    // a few longer combinations in every tier: SEVERAL constant terms (before, between and after polynomial terms),
+    // as the public arithmetic on combinations produces them (`lc += c1; lc -= c2`, sums of combinations with constants)
+    if max_len < 4 {
+        let (one, r1, m1) = (F::one(), ca.iter().find(|(n, _)| *n != "0" && *n != "1" && *n != "-1").map(|x| x.1).unwrap_or(F::from(7u64)), -F::one());
+        let extra: Vec<Vec<(F, Option<usize>)>> = vec![
+            vec![(one, Some(0)), (one, None), (r1, None)],
+            vec![(one, None), (one, Some(0)), (m1, None)],
+            vec![(r1, None), (one, Some(0)), (r1, Some(1)), (one, None)],
+            vec![(one, Some(0)), (one, None), (one, Some(1)), (r1, None), (m1, Some(0)), (one, None)],
+            vec![(one, None), (one, None), (r1, Some(1))],
+        ];
+        for (i, terms) in extra.into_iter().enumerate() {
+            out.push(LcSpec { name: format!("multi-constant-{}", i), terms });
+        }
+    }
     out
 }
 
